@@ -11,7 +11,7 @@
 (*  - CondToExpr: Condition::to_simple_expr (src/query/condition.rs).      *)
 (* Rendering is into a String writer (values inlined).                     *)
 (***************************************************************************)
-EXTENDS ExprLaw, Escape, Ident
+EXTENDS ExprLaw, Escape, Ident, Template
 
 Bin(l, op, r) == [k |-> "Binary", l |-> l, op |-> op, r |-> r]
 Un(e)         == [k |-> "Unary", e |-> e]
@@ -52,7 +52,7 @@ CondToExpr(c) ==
        IN IF c.neg THEN Un(body) ELSE body
 
 Internal(e) ==
-  CASE e.k = "col" -> [k |-> "Column", n |-> e.n]
+  CASE e.k = "col" -> [k |-> "Column", n |-> e.n, q |-> IF "q" \in DOMAIN e THEN e.q ELSE <<>>]
     [] e.k = "val" -> [k |-> "Value", v |-> e.v]
     [] e.k = "const" -> [k |-> "Constant", v |-> e.v]
     [] e.k = "bin" -> Bin(Internal(e.l), e.op, Internal(e.r))
@@ -73,6 +73,12 @@ Internal(e) ==
                         else |-> IF "else" \in DOMAIN e THEN Internal(e.else) ELSE None]
     [] e.k = "kw" -> [k |-> "Keyword", w |-> Canon("mysql", e).w]
     [] e.k = "cust" -> [k |-> "Custom", s |-> e.s]
+    [] e.k = "custv" -> [k |-> "CustomWithExpr", s |-> e.s, vs |-> InternalSeq(e.vs)]
+    [] e.k = "vals" -> [k |-> "Values", vs |-> e.vs]
+    [] e.k = "asenum" -> [k |-> "AsEnum", ty |-> e.ty, e |-> Internal(e.e)]
+    \* subqueries arrive pre-rendered (field txt, see Stmt!MapSubq): the statement renderer is a later module
+    [] e.k = "subq" -> [k |-> "SubQuery", op |-> IF "op" \in DOMAIN e THEN UpperStr(e.op) ELSE "", txt |-> IF "txt" \in DOMAIN e THEN e.txt ELSE "?"]
+    [] e.k = "insub" -> Bin(Internal(e.e), IF Neg(e) THEN "NotIn" ELSE "In", [k |-> "SubQuery", op |-> "", txt |-> IF "txt" \in DOMAIN e THEN e.txt ELSE "?"])
     [] e.k = "cond" -> CondToExpr(BuildCond(e))
 
 (***************************  Oper::is_* classes  **************************)
@@ -86,11 +92,18 @@ IsIsOp(op)       == op \in {"Is", "IsNot"}
 IsLogical(op)    == op \in {"Not", "And", "Or"}          \* "Not" = the unary operator
 IsPgComparison(op) == op \in {"PgContained", "PgContains", "PgSimilarity", "PgWordSimilarity", "PgStrictWordSimilarity", "PgMatches"}
 
+\* rendering options: mp = cargo feature option-more-parentheses; pm = parameter
+\* mode (bound values are written as ESC literal DEL markers, see Stmt!ToParams)
+Opt(mp, pm) == [mp |-> mp, pm |-> pm]
+NoOpt == Opt(FALSE, FALSE)
+POpen == NamedChars.ESC
+PClose == NamedChars.DEL
+
 \* common_inner_expr_well_known_greater_precedence
 CommonGreater(MP, inner, outer) ==
   IF inner.k \in {"Column", "Tuple", "Constant", "Func", "Value", "Keyword", "Case", "SubQuery"} THEN TRUE
   ELSE IF inner.k = "Binary" THEN
-    IF MP THEN FALSE
+    IF MP.mp THEN FALSE
     ELSE IF IsArith(inner.op) \/ IsShift(inner.op)
          THEN IsComparison(outer) \/ IsBetweenOp(outer) \/ IsInOp(outer) \/ IsLikeOp(outer) \/ IsLogical(outer)
     ELSE IF IsComparison(inner.op) \/ IsInOp(inner.op) \/ IsLikeOp(inner.op) \/ IsIsOp(inner.op) THEN IsLogical(outer)
@@ -113,11 +126,9 @@ ValueToString(B, v) ==
 RECURSIVE JoinStrs(_, _)
 JoinStrs(ss, sep) == IF Len(ss) = 0 THEN "" ELSE IF Len(ss) = 1 THEN ss[1] ELSE ss[1] \o sep \o JoinStrs(Tail(ss), sep)
 
-ColText(B, n) ==
+ColText(B, x) ==       \* x = [n, q]
   LET q == QuoteOf(B) IN
-  IF n = "*" THEN "*"
-  ELSE IF n \in STRING THEN Prepare(n, q, q)
-  ELSE JoinStrs([i \in DOMAIN n |-> IF n[i] = "*" THEN "*" ELSE Prepare(n[i], q, q)], ".")
+  ConcatAll([i \in DOMAIN x.q |-> Prepare(x.q[i], q, q) \o "."]) \o (IF x.n = "*" THEN "*" ELSE Prepare(x.n, q, q))
 
 RECURSIVE RenderI(_, _, _), BinaryExpr(_, _, _, _, _)
 BinaryExpr(B, MP, l, op, r) ==
@@ -140,10 +151,18 @@ BinaryExpr(B, MP, l, op, r) ==
 IntVal(n) == [k |-> "Value", v |-> [t |-> "Int", v |-> n]]
 
 RenderI(B, MP, x) ==
-  CASE x.k = "Column" -> ColText(B, x.n)
-    [] x.k \in {"Value", "Constant"} -> ValueToString(B, x.v)
+  CASE x.k = "Column" -> ColText(B, x)
+    [] x.k = "Value" -> IF MP.pm THEN POpen \o ValueToString(B, x.v) \o PClose ELSE ValueToString(B, x.v)
+    [] x.k = "Constant" -> ValueToString(B, x.v)
     [] x.k = "Keyword" -> x.w
     [] x.k = "Custom" -> x.s
+    [] x.k = "SubQuery" -> x.op \o "(" \o x.txt \o ")"
+    [] x.k = "Values" -> "(" \o JoinStrs([i \in DOMAIN x.vs |-> RenderI(B, MP, [k |-> "Value", v |-> x.vs[i]])], ", ") \o ")"
+    [] x.k = "AsEnum" -> IF B = "pg" THEN "CAST(" \o RenderI(B, MP, x.e) \o " AS " \o Prepare(x.ty, "\"", "\"") \o ")" ELSE RenderI(B, MP, x.e)
+    [] x.k = "CustomWithExpr" ->
+         LET al == ConcatAll([i \in 1..Len(x.s) |-> IF Ch(x.s, i) \in Letters \cup Digits THEN "1" ELSE "0"])
+             ps == ExpandImpl(B, x.s, al)
+         IN ConcatAll([i \in DOMAIN ps |-> IF ps[i].k = "text" THEN ps[i].s ELSE RenderI(B, MP, x.vs[ps[i].i])])
     [] x.k = "Tuple" -> "(" \o JoinStrs([i \in DOMAIN x.es |-> RenderI(B, MP, x.es[i])], ", ") \o ")"
     [] x.k = "Unary" ->
          "NOT " \o (IF Greater(B, MP, x.e, "Not") THEN RenderI(B, MP, x.e) ELSE "(" \o RenderI(B, MP, x.e) \o ")")
@@ -161,5 +180,5 @@ RenderI(B, MP, x) ==
             \o ") THEN " \o RenderI(B, MP, x.whens[i].r)]) \o
          (IF x.else = None THEN "" ELSE " ELSE " \o RenderI(B, MP, x.else)) \o " END)"
 
-RenderExpr(B, MP, e) == RenderI(B, MP, Internal(e))
+RenderExpr(B, mp, e) == RenderI(B, Opt(mp, FALSE), Internal(e))
 =============================================================================
